@@ -190,7 +190,10 @@ FLOAT_BASE = [b'0', b'1', b'-1', b'1.5', b'.5', b'5.', b'1e3', b'1E3', b'1e+3', 
               b'1e0000000000000000000001', b'1e-0', b'.e1', b'5e-325', b'3e-324', b'1' + b'0' * 400, b'0.' + b'0' * 400 + b'1']
 DECORATE = [lambda v: v, lambda v: b' ' + v, lambda v: v + b' ', lambda v: b'\t' + v, lambda v: v + b'\n', lambda v: v + b'\x00',
             lambda v: v + b'\x00x', lambda v: b'\x00' + v, lambda v: b'(' + v, lambda v: b'  ' + v, lambda v: v + b'x',
-            lambda v: v.upper(), lambda v: b'\x0b' + v, lambda v: v + b'\r']
+            lambda v: v.upper(), lambda v: b'\x0b' + v, lambda v: v + b'\r',
+            # bytes that are white space for Python's str (after a latin-1 / unicode decoding) but not for C's isspace, and the other way round
+            lambda v: v + b'\xa0', lambda v: b'\x85' + v, lambda v: b'\xa0' + v + b'\x85', lambda v: b'\x1c' + v, lambda v: v + b'\x1f', lambda v: b'\x1d' + v + b'\x1e',
+            lambda v: b'\x0c' + v, lambda v: v + b'\x0c', lambda v: b'\xc2\xa0' + v, lambda v: v + b'\xe2\x80\x83', lambda v: b'\xef\xbb\xbf' + v]
 
 
 def py_conv(kind, v):
